@@ -57,7 +57,17 @@ type provCfg struct {
 type provState struct {
 	cfg   provCfg
 	seen  map[ssa.Value]bool
+	base  map[ssa.Value]bool
 	depth int
+}
+
+func (st *provState) markBase(v ssa.Value) {
+	if st.base == nil {
+		st.base = map[ssa.Value]bool{}
+	}
+	if !st.seen[v] {
+		st.base[v] = true
+	}
 }
 
 // rootsOf computes the roots of v.
@@ -123,8 +133,32 @@ func (st *provState) visit(v ssa.Value, rs RootSet, depth int) {
 	}
 	st.seen[v] = true
 	if p, ok := accessPath(v); ok {
-		if _, isCall := v.(*ssa.Call); !isCall || true {
+		// the base of a field read is recorded as "base:", the value actually read as "param:";
+		// a parameter that is resolved through its callers is an intermediate ("followed:")
+		par, isParam := v.(*ssa.Parameter)
+		willFollow := isParam && st.cfg.FollowCallers && depth < st.cfg.MaxDepth && (st.cfg.FollowParam == nil || st.cfg.FollowParam(par)) && len(st.cfg.W.callGraph().callers[par.Parent()]) > 0
+		switch {
+		case st.base[v]:
+			rs.add("base:" + p)
+		case willFollow:
+			rs.add("followed:" + p)
+		default:
 			rs.add("param:" + p)
+		}
+		switch x := v.(type) {
+		case *ssa.FieldAddr:
+			st.markBase(x.X)
+		case *ssa.Field:
+			st.markBase(x.X)
+		case *ssa.UnOp:
+			if fa, ok := x.X.(*ssa.FieldAddr); ok {
+				st.markBase(fa)
+				st.markBase(fa.X)
+			}
+		case *ssa.Call:
+			if len(x.Common().Args) == 1 {
+				st.markBase(x.Common().Args[0])
+			}
 		}
 		// parameters of unexported functions: follow callers
 		if par, isPar := v.(*ssa.Parameter); isPar && st.cfg.FollowCallers && depth < st.cfg.MaxDepth && (st.cfg.FollowParam == nil || st.cfg.FollowParam(par)) {
@@ -285,8 +319,9 @@ func (st *provState) visitCallResult(call ssa.Value, idx int, rs RootSet, depth 
 			}
 			rs.add("via:" + key)
 			for k := range inner {
-				if strings.HasPrefix(k, "param:") {
-					name := strings.TrimPrefix(k, "param:")
+				if strings.HasPrefix(k, "param:") || strings.HasPrefix(k, "base:") {
+					isBase := strings.HasPrefix(k, "base:")
+					name := strings.TrimPrefix(strings.TrimPrefix(k, "param:"), "base:")
 					base := name
 					rest := ""
 					if i := strings.Index(name, "."); i >= 0 {
@@ -294,8 +329,11 @@ func (st *provState) visitCallResult(call ssa.Value, idx int, rs RootSet, depth 
 					}
 					for pi, p := range f.Params {
 						if p.Name() == base && pi < len(cc.Args) {
-							if ap, ok := accessPath(cc.Args[pi]); ok && rest != "" {
+							if ap, ok := accessPath(cc.Args[pi]); ok && rest != "" && !isBase {
 								rs.add("param:" + ap + rest)
+							}
+							if rest != "" || isBase {
+								st.markBase(cc.Args[pi])
 							}
 							st.visit(cc.Args[pi], rs, depth)
 						}
@@ -342,6 +380,9 @@ func (st *provState) followCallers(par *ssa.Parameter, rs RootSet, depth int) {
 		}
 		if idx < len(args) {
 			rs.add("viacaller:" + fnName(cs.Caller))
+			if st.base[par] {
+				st.markBase(args[idx])
+			}
 			st.visit(args[idx], rs, depth+1)
 		}
 	}
